@@ -1,7 +1,7 @@
 (* Gophermap.v — pygopherd/handlers/gophermap.py BuckGophermapHandler:
    handler selection (canhandlerequest), which file prepare() reads, the line
    classifier of prepare() and the loop that builds self.entries, plus
-   protocols/base.py writedir (abstracts switched off).  Definitions only.
+   protocols/base.py writedir (without and with abstracts).  Definitions only.
 
    Exceptions are values: `Raise IndexError` / `Raise ValueError` are the two
    exceptions the classifier can raise; they abort the whole prepare().
@@ -219,4 +219,44 @@ Fixpoint sequence {A : Type} (l : list (option A)) : option (list A) :=
   | [] => Some []
   | None :: _ => None
   | Some x :: r => option_map (cons x) (sequence r)
+  end.
+
+(* ---------- writedir with abstracts (the shipped abstract_headers = on, abstract_entries = always) ---------- *)
+Definition ABSTRACT_KEY : str := lit "ABSTRACT"%string.
+
+(* BaseGopherProtocol.renderabstract: one info entry per line of the abstract *)
+Definition renderabstract (render : entry -> option str) (abstract : option str) : option str :=
+  match abstract with
+  | None | Some [] => Some []
+  | Some s => option_map (@concat N) (sequence (map (fun l => render (getinfoentry l)) (splitlines s)))
+  end.
+
+Fixpoint writedir_abs_loop (render : entry -> option str) (doabstracts : bool) (out : str) (es : list entry)
+  : option str :=
+  match es with
+  | [] => Some out
+  | e :: r =>
+      match render e with
+      | None => None
+      | Some s =>
+          if doabstracts then
+            match renderabstract render (dict_get ABSTRACT_KEY (e_ea e)) with
+            | Some a => writedir_abs_loop render doabstracts (out ++ s ++ a) r
+            | None => None
+            end
+          else writedir_abs_loop render doabstracts (out ++ s) r
+      end
+  end.
+
+(* headers     = config.getboolean("pygopherd", "abstract_headers")
+   doabstracts = abstract_entries == "always" or (== "unsupported" and not groksabstract())
+   listed      = handler.getentry(): the entry of the object whose listing is written *)
+Definition writedir_abs (headers doabstracts : bool) (pre post : str) (render : entry -> option str)
+           (listed : entry) (es : list entry) : option str :=
+  let hdr := if headers
+             then renderabstract render (Some (match dict_get ABSTRACT_KEY (e_ea listed) with Some a => a | None => [] end))
+             else Some [] in
+  match hdr with
+  | None => None
+  | Some h => option_map (fun o => o ++ post) (writedir_abs_loop render doabstracts (pre ++ h) es)
   end.
